@@ -148,6 +148,16 @@ def end_to_end(ctx, thorough, bind=""):
     srcs = sorted(senders.socks)
     rng = ctx.rng
     acked = {"ipfix": [], "netflow9": []}      # (src, template id, version) acknowledged in some incarnation
+    import fnv
+    # an exporter (a loopback address 127.b.c.d and a template id) whose cache key is the key of (first exporter, id 300)
+    prefix = [] if bind else [0] * 10 + [255, 255]
+    cb = fnv.colliding_loopback(prefix, [int(x) for x in srcs[0].split(".")], 300)
+    collide = None
+    if cb:
+        other = ".".join(str(x) for x in cb[0])
+        senders.add(other)
+        collide = (srcs[0], 300, other, cb[1])
+    ctx.extra["e2e_colliding_pair" + ("_v4" if bind else "")] = list(collide) if collide else None
     try:
         cycles = (7 if thorough else 4) if not bind else (5 if thorough else 3)
         for cyc in range(cycles):
@@ -212,14 +222,18 @@ def end_to_end(ctx, thorough, bind=""):
                 gp = "ipfix" if proto == "ipfix" else "v9"
                 name = e2e.KEY[proto]
                 todo = [(srcs[(cyc * 3 + k) % len(srcs)], 300 + cyc * 10 + k, [1, 2, 3][(k + cyc) % 3]) for k in range(6 if thorough else 3)]
+                if cyc == 0 and collide:
+                    # two exporters whose (address, template id) pairs share one cache key: the one learnt first takes its
+                    # template back in the next run; the other one's template sits behind it, in memory and in the file
+                    todo += [(collide[0], collide[1], 1), (collide[2], collide[3], 2)]
                 if redefine and acked[proto]:
-                    todo = [(src, tid, [1, 2, 3][v % 3]) for (src, tid, v) in acked[proto]]
+                    todo = [(src, tid, [1, 2, 3][v % 3] if not (collide and (src, tid) == collide[:2]) else 0) for (src, tid, v) in acked[proto]]
                 for (src, tid, v) in todo:      # plain templates and an options template
                     base = col.stats()[name]
                     senders.send(src, col.ports[proto], c04.tpl_msg(gp, tid, v))
                     ok = e2e.wait_until(lambda: col.stats()[name]["DecodedCount"] > base["DecodedCount"], timeout=5)
                     if ok:
-                        acked[proto] = [a for a in acked[proto] if (a[0], a[1]) != (src, tid)] + [(src, tid, v)]
+                        acked[proto] = [a for a in acked[proto] if (a[0], a[1]) != (src, tid)] + ([(src, tid, v)] if v else [])
             if cyc == 0 and not bind:
                 # "bursts of template announcements ... from many exporters": 2400 templates of 20 fields from 8 exporters - the
                 # cache files this and every later incarnation saves and loads are a few megabytes long
